@@ -1,4 +1,4 @@
-import Cinco.Stub.Gen
+import Cinco.Proofs.Stub
 import Cinco.Generated.StubEffects
 /-
   C20 — generated type stubs declare every field and method.
@@ -100,44 +100,6 @@ theorem method_decl (cls : String) (fs : Fields) (k : String) (m : Method) (hm :
     · cases sf' <;> simp [methodsOf, ih h]
 
 /-! ### Parameter names and kinds -/
-
-theorem readFrom_map_argItem (bs st : Bool) (ps : List Param) (rest : List Item) :
-    readFrom bs st (ps.map argItem ++ rest) =
-      ps.map (fun p => (p.name, if bs then PKind.posOnly else if st then .kwOnly else .pos)) ++
-        readFrom bs st rest := by
-  induction ps with
-  | nil => rfl
-  | cons p r ih => simp [argItem, readFrom, ih]
-
-theorem hasSlash_map_argItem (ps : List Param) (rest : List Item) :
-    hasSlash (ps.map argItem ++ rest) = hasSlash rest := by
-  induction ps with
-  | nil => rfl
-  | cons p r ih => simp [argItem, hasSlash, ih]
-
-theorem hasSlash_tail (m : Method) : hasSlash (starPart m ++ kwPart m) = false := by
-  have hk : hasSlash (kwPart m) = false := by unfold kwPart; cases m.varkw <;> rfl
-  unfold starPart
-  cases hko : m.kwonly with
-  | nil => cases m.varargs <;> simp [hasSlash, hk]
-  | cons k ks =>
-    cases m.varargs <;>
-      simp only [List.cons_append, hasSlash, ← List.map_cons, hasSlash_map_argItem, hk]
-
-theorem readFrom_tail (m : Method) :
-    readFrom false false (starPart m ++ kwPart m) =
-      (match m.varargs with | some v => [(v, PKind.varArgs)] | none => []) ++
-      m.kwonly.map (fun p => (p.name, PKind.kwOnly)) ++
-      (match m.varkw with | some k => [(k, PKind.varKw)] | none => []) := by
-  have hk : ∀ st, readFrom false st (kwPart m) =
-      (match m.varkw with | some k => [(k, PKind.varKw)] | none => []) := by
-    intro st; unfold kwPart; cases m.varkw <;> rfl
-  unfold starPart
-  cases hko : m.kwonly with
-  | nil => cases m.varargs <;> simp [readFrom, hk]
-  | cons k ks =>
-    cases m.varargs <;>
-      simp only [List.cons_append, readFrom, ← List.map_cons, readFrom_map_argItem, hk] <;> simp
 
 /-- **The method's parameter list declares the same names and kinds as the bound function**, with the
     configuration parameter called `self` — for every signature shape (positional-only, positional,
